@@ -3,6 +3,7 @@
 Storage is a mutable Cell shared by views (basic slicing / integer indexing give views, as in
 numpy; everything else copies).  Not modelled: dtype casting, memory layout, float rounding.
 """
+import sys
 import z3
 from .core import cur, OutOfSubset, forall_range, exists_range, _z
 from .values import Sym, SInt, SReal, SBool, SKey, SNum, lift, term, IntS, RealS, BoolS, _coerce, SOpt
@@ -43,6 +44,69 @@ def conc(t):
     return v.as_long() if z3.is_int_value(v) else None
 
 
+class ZBool(z3.BoolRef):
+    """a z3 Bool term that FORKS when python asks for its truth value.  (A plain z3.BoolRef answers bool(a == b) by
+    STRUCTURAL equality - silently False for a symbolic operand - which would drop a path without any trace.)"""
+
+    def __bool__(self):
+        return cur().branch(self)
+
+
+class ZInt(z3.ArithRef):
+    """shape entries: ordinary z3 Int terms for contracts, but comparisons made by the ANALYSED code (`x.shape[1] == 1`)
+    give ZBool and therefore fork instead of being decided structurally"""
+
+    def _b(self, r):
+        return ZBool(r.as_ast(), r.ctx) if isinstance(r, z3.BoolRef) else r
+
+    def _a(self, r):
+        return ZInt(r.as_ast(), r.ctx) if isinstance(r, z3.ArithRef) and r.sort() == IntS else r
+
+    def __eq__(self, o): return self._b(z3.ArithRef.__eq__(self, _plain(o)))
+    def __ne__(self, o): return self._b(z3.ArithRef.__ne__(self, _plain(o)))
+    def __lt__(self, o): return self._b(z3.ArithRef.__lt__(self, _plain(o)))
+    def __le__(self, o): return self._b(z3.ArithRef.__le__(self, _plain(o)))
+    def __gt__(self, o): return self._b(z3.ArithRef.__gt__(self, _plain(o)))
+    def __ge__(self, o): return self._b(z3.ArithRef.__ge__(self, _plain(o)))
+    def __add__(self, o): return self._a(z3.ArithRef.__add__(self, _plain(o)))
+    def __radd__(self, o): return self._a(z3.ArithRef.__radd__(self, _plain(o)))
+    def __sub__(self, o): return self._a(z3.ArithRef.__sub__(self, _plain(o)))
+    def __rsub__(self, o): return self._a(z3.ArithRef.__rsub__(self, _plain(o)))
+    def __mul__(self, o): return self._a(z3.ArithRef.__mul__(self, _plain(o)))
+    def __rmul__(self, o): return self._a(z3.ArithRef.__rmul__(self, _plain(o)))
+    def __neg__(self): return self._a(z3.ArithRef.__neg__(self))
+    __hash__ = z3.ArithRef.__hash__
+
+    def __floordiv__(self, o): return SInt(self) // o
+    def __rfloordiv__(self, o): return o // SInt(self)
+    def __mod__(self, o): return SInt(self) % o
+    def __truediv__(self, o): return SInt(self) / o
+    def __rtruediv__(self, o): return o / SInt(self)
+
+    def __index__(self):
+        c = conc(self)
+        if c is None:
+            raise OutOfSubset('symbolic dimension used where python needs a concrete integer')
+        return c
+
+    def __int__(self):
+        return self.__index__()
+
+
+def _plain(o):
+    if isinstance(o, Sym) and getattr(o, 't', None) is not None:
+        return o.t
+    return o
+
+
+def zdim(t):
+    if isinstance(t, ZInt):
+        return t
+    if isinstance(t, z3.ArithRef):
+        return ZInt(t.as_ast(), t.ctx)
+    return t
+
+
 class Cell:
     __slots__ = ('elt', 'shape', 'kind')
 
@@ -63,12 +127,12 @@ def wrap_scalar(t, kind):
 class SArr(Sym):
     """view = list over STORAGE axes of ('fix', term) | ('rng', offset_term); `shape` lists the lengths
     of the 'rng' axes in order; `perm` optionally permutes the view axes (transpose)."""
-    __slots__ = ('cell', 'view', 'shape', 'perm', '_sel', 'name', 'sel_inst')
+    __slots__ = ('cell', 'view', '_shape', 'perm', '_sel', 'name', 'sel_inst')
 
     def __init__(self, cell, view=None, shape=None, perm=None, name=None):
         self.cell = cell
         self.view = view if view is not None else [('rng', z3.IntVal(0))] * len(cell.shape)
-        self.shape = tuple(shape) if shape is not None else tuple(cell.shape)
+        self._shape = tuple(shape) if shape is not None else tuple(cell.shape)
         self.perm = perm
         self._sel = None
         self.name = name
@@ -91,6 +155,18 @@ class SArr(Sym):
 
     # ---------------------------------------------------------------- basic facts
     @property
+    def shape(self):
+        """z3 Int terms for contract / engine code; python ints and SInt proxies when the ANALYSED code reads it
+        (a raw z3 term would answer `x.shape[1] == 1` by structural equality - silently False - and `/` by integer division)"""
+        if sys._getframe(1).f_code.co_filename.startswith('<pyvc:'):
+            return self.pshape
+        return self._shape
+
+    @shape.setter
+    def shape(self, v):
+        self._shape = tuple(zi(d) for d in v)
+
+    @property
     def kind(self):
         return self.cell.kind
 
@@ -100,7 +176,7 @@ class SArr(Sym):
 
     @property
     def pshape(self):
-        return tuple(SInt(s) if conc(s) is None else conc(s) for s in self.shape)
+        return tuple(SInt(s) if conc(s) is None else conc(s) for s in self._shape)
 
     def _vc_len(self):
         if not self.shape:
